@@ -19,6 +19,7 @@ import Ymq.Lemmas.PolyWalkB
 import Ymq.Lemmas.PolyUnit
 import Ymq.Lemmas.PolySizesWalk
 import Ymq.Lemmas.PolyWalkTotal
+import Ymq.Lemmas.PolySelectNever
 import Ymq.Lemmas.PolyMpqs
 import Ymq.Lemmas.PolyQs
 
@@ -500,6 +501,148 @@ example : FbOk 1050589 fbEx ∧ SelOk 1050589 [⟨7, 1⟩, ⟨11, 1⟩, ⟨23, 8
     rw [hf] at this; simpa using this
   · have : ((mkFactors 1050589 [⟨7, 1⟩, ⟨11, 1⟩, ⟨23, 8⟩]).map fun f => (afsOf f 1771).length) = some 3 := by decide
     rw [hf] at this; simpa using this
+
+/-! ### the choice of `A`: `select_siqs_factors` and `select_a` (Ymq/Model/SiqsSelect.lean) -/
+
+open Ymq.SiqsSelect Ymq.PolySelect Ymq.PolySizes Ymq.PolyCrt in
+/-- `select_window_assert`: for `nfacs ≥ 1`, a defined target (`mm ≥ 2`) below 2^255, `select_siqs_factors`
+returns if and only if its pool — the primes of index ≥ 1 with non-zero root among the first `2·idx + 4·nfacs` of the
+factor base, `idx` = number of primes with `p^nfacs < target` — has MORE than `nfacs` elements: this is exactly when
+`assert!(selected_idx.len() > nfacs)` (siqs.rs, "cannot sample … primes") holds. When it returns, the target is
+`siqsTarget n mm`, and the selection is a sublist of the factor base without its first prime, all roots non-zero,
+of more than `nfacs` and at most `4·nfacs` primes; with `FbOk` and distinct primes it satisfies `SelOk` and
+`SelNz` (the hypotheses of `siqs_B_sq`, `walk_B_sq`, `siqs_walk_total`). -/
+theorem select_window_assert (fb : List Prime) (n : Int) (nfacs mm : Nat) (hnf : 0 < nfacs) :
+    (∀ tgt, target n mm = some tgt → bitlen tgt < 256 →
+      ((∃ r, selectFactors fb n nfacs mm = some r) ↔
+        (pool fb (partitionPoint fb nfacs tgt) nfacs).length > nfacs)) ∧
+    (∀ tgt sel, selectFactors fb n nfacs mm = some (tgt, sel) →
+      tgt = siqsTarget n mm ∧ sel.Sublist (fb.drop 1) ∧ (∀ q ∈ sel, q.r ≠ 0) ∧
+      nfacs < sel.length ∧ sel.length ≤ 4 * nfacs ∧
+      (FbOk n fb → (fb.map (·.p)).Nodup → SelOk n sel ∧ SelNz n sel)) := by
+  refine ⟨fun tgt ht hb => selectFactors_isSome_iff fb n nfacs mm tgt hnf ht hb, ?_⟩
+  intro tgt sel h
+  obtain ⟨h1, _, h3, h4, h5, h6⟩ := selectFactors_some hnf h
+  refine ⟨h1, h3, h4, h5, h6, ?_⟩
+  intro hfb hnd
+  exact sel_ok hfb.prime hfb.root hnd h3 h4
+
+open Ymq.SiqsSelect Ymq.PolySelect Ymq.PolySizes Ymq.PolyCrt in
+/-- `select_a_sound`: every `A` returned by `select_a` (exhaustive branch for at most 5 factors and a target of at
+most 66 bits, sampling loop otherwise; `nfacs ≥ 1`) is the product of `nfacs` selected primes with distinct indices.
+For a selection with `SelOk` this is exactly the shape the other theorems ask for: `A = ∏ (afsOf f A)` with
+`nfacs` factors (`afsOf` = the selected primes dividing `A`, as `prepare_a` finds them). On the sampling branch `A`
+lies strictly inside the tolerance window of some divisor `d`, hence `A ≤ 4·target`; `target ≤ 4A` unless `d = 1`
+and `3·target ≤ 4A` when `d ≥ 4` (the hypotheses of `SizeDom` / `siqs_walk_total`). -/
+theorem select_a_sound (n : Int) (sel : List Prime) (f : Factors) (tgt nfacs want fuel : Nat) (as : List Nat)
+    (hnf : 0 < nfacs) (hs : SelOk n sel) (hf : mkFactors n sel = some f)
+    (h : selectA n tgt nfacs want (sel.map (·.p)) fuel = some as) (A : Nat) (hA : A ∈ as) :
+    IsProd (sel.map (·.p)) nfacs A ∧ A = ((afsOf f A).map (·.2.p)).prod ∧ (afsOf f A).length = nfacs ∧
+    (¬ (nfacs ≤ 5 ∧ bitlen tgt ≤ 66) →
+      ∃ d, (tolWindow tgt d).1 < A ∧ A < (tolWindow tgt d).2 ∧ A ≤ 4 * tgt ∧
+        (d ≠ 1 → tgt ≤ 4 * A) ∧ (4 ≤ d → 3 * tgt ≤ 4 * A)) := by
+  obtain ⟨h1, h2⟩ := selectA_sound hnf h A hA
+  obtain ⟨h3, h4⟩ := isProd_afs hs hf h1
+  refine ⟨h1, h3, h4, ?_⟩
+  intro hns
+  obtain ⟨d, hd1, hd2⟩ := h2 hns
+  obtain ⟨b1, b2, b3⟩ := tolWindow_bounds hd1 hd2
+  exact ⟨d, hd1, hd2, b1, b2, b3⟩
+
+open Ymq.SiqsSelect Ymq.PolySelect Ymq.PolySizes in
+/-- `siqs_select_walk_total`: end to end. For a factor base as `FBase::new` provides it (distinct primes, 2 only in
+front), `0 < n < 2^448`, `2^15 ≤ M < 2^20`, `1 ≤ nfacs ≤ 32`: whenever `select_siqs_factors` returns a selection and
+`select_a` returns a list containing `A` with `target/4 ≤ A ≤ 4·target` (and `A ≥ ¾·target` for 5 factors and more),
+the table of inverses exists, `prepare_a` returns, `A` has exactly `nfacs` factors and every polynomial of the Gray
+walk is produced: no panic site between the choice of `A` and the sieve is reachable. -/
+theorem siqs_select_walk_total (n : Int) (fb sel : List Prime) (nfacs mm want fuel tgt A : Nat) (as : List Nat)
+    (hfb : FbOk n fb) (hnd : (fb.map (·.p)).Nodup) (h2 : ∀ q ∈ fb.drop 1, q.p ≠ 2)
+    (hnf : 0 < nfacs) (hnf32 : nfacs ≤ 32)
+    (hsel : selectFactors fb n nfacs mm = some (tgt, sel))
+    (has : selectA n tgt nfacs want (sel.map (·.p)) fuel = some as) (hA : A ∈ as)
+    (hn0 : 0 < n) (hn : n < 2 ^ 448) (hm1 : 32768 ≤ mm) (hm2 : mm < 2 ^ 20)
+    (hlo : tgt ≤ 4 * A) (hhi : A ≤ 4 * tgt) (h34 : nfacs ≥ 5 → 3 * tgt ≤ 4 * A) :
+    ∃ f pa, mkFactors n sel = some f ∧ prepareA f A fb (-((mm : Int) / 2)) = some pa ∧
+      pa.factors.length = nfacs ∧
+      ∀ idx, idx < 2 ^ (nfacs - 1) → ∃ pol, polyAt (mkSieve n mm) pa idx = some pol :=
+  select_walk_total hfb.prime hfb.small hfb.root hnd h2 hnf hnf32 hsel has hA hn0 hn hm1 hm2 hlo hhi h34
+
+open Ymq.SiqsSelect Ymq.PolySelect in
+/-- `select_a_never_returns`: termination of the sampling loop of `select_a` is conditional. If the selection
+admits fewer than `want` products of `nfacs` primes (`C(|selection|, nfacs) < want`), the model returns `none` for
+EVERY number of iterations granted: the loop `while iters < 1000 * want || candidates.len() < want` can neither
+reach `want` candidates nor the early exit. (The loop does not poll `should_abort`.) -/
+theorem select_a_never_returns (n : Int) (tgt nfacs want : Nat) (ps : List Nat) (hnf : 0 < nfacs)
+    (hsamp : ¬ (nfacs ≤ 5 ∧ bitlen tgt ≤ 66)) (hfew : Nat.choose ps.length nfacs < want) :
+    ∀ fuel, selectA n tgt nfacs want ps fuel = none :=
+  selectA_never hnf hsamp hfew
+
+/-- a 150-bit `n` with the 8-prime factor base `FBase::new(n, 8)` builds (preference `fb_size = 8`) -/
+private def nHang : Int := 1273723276440496174502151209271051750591428621
+private def fbHang : List Prime := [⟨2, 1⟩, ⟨5, 1⟩, ⟨7, 2⟩, ⟨11, 9⟩, ⟨13, 9⟩, ⟨17, 5⟩, ⟨19, 7⟩, ⟨31, 1⟩]
+
+open Ymq.SiqsSelect in
+/-- `select_a_hang_witness`: for this `n` and factor base, with the driver's own `nfactors = 6`,
+`interval_size = 32768`, `a_value_count = 98`: `select_siqs_factors` returns the 7 primes of the pool, only
+`C(7, 6) = 7 < 98` products exist, and `select_a` never returns. On the real code
+`siqs_select 1273723276440496174502151209271051750591428621 1 8 auto auto auto` does not answer (corpus seed). -/
+theorem select_a_hang_witness :
+    ∃ tgt sel, selectFactors fbHang nHang 6 32768 = some (tgt, sel) ∧ sel.length = 7 ∧
+      ∀ fuel, selectA nHang tgt 6 98 (sel.map (·.p)) fuel = none := by
+  have h : (selectFactors fbHang nHang 6 32768).isSome = true := by decide +kernel
+  obtain ⟨⟨tgt, sel⟩, hsel⟩ := Option.isSome_iff_exists.mp h
+  have hl : ((selectFactors fbHang nHang 6 32768).map fun r => r.2.length) = some 7 := by decide +kernel
+  rw [hsel] at hl
+  simp only [Option.map_some, Option.some.injEq] at hl
+  refine ⟨tgt, sel, hsel, hl, ?_⟩
+  apply select_a_never_returns nHang tgt 6 98 _ (by norm_num) (by omega)
+  rw [List.length_map, hl]; decide
+
+open Ymq.SiqsSelect in
+/-- `select_assert_fires_witness`: for `n = 747329918201907168682715089996070935618991551` and its 8-prime factor
+base (13 divides `n`), `nfacs = 6`: the pool has 6 elements and the assertion of `select_siqs_factors` fires
+(real code: `internal error: cannot sample 6 primes from fb[0..6]`, corpus seed). -/
+theorem select_assert_fires_witness :
+    selectFactors [⟨2, 1⟩, ⟨3, 1⟩, ⟨5, 1⟩, ⟨7, 4⟩, ⟨11, 4⟩, ⟨13, 0⟩, ⟨19, 9⟩, ⟨23, 3⟩]
+      747329918201907168682715089996070935618991551 6 32768 = none := by
+  decide +kernel
+
+open Ymq.Gen.Params in
+/-- `siqs_params_in_domain`: the translated parameter functions keep the sieve inside `SizeDom` for every input of
+at most 448 bits: `interval_size` lies in `[2^15, 2^20)`, `nfactors` in `[2, 17]`, and wherever `nfactors ≥ 5`
+the tolerance divisor is at least 20 (so `A ≥ ¾·target` at the default tolerance). -/
+theorem siqs_params_in_domain (bits : Nat) (hb : bits ≤ 448) (ud : Bool) :
+    (∃ mm, siqs.interval_size bits ud = some mm ∧ 32768 ≤ mm ∧ mm < 2 ^ 20) ∧
+    (∃ nf, siqs.nfactors bits = some nf ∧ 2 ≤ nf ∧ nf ≤ 17 ∧
+      ∃ dv, siqs.a_tolerance_divisor bits = some dv ∧ 3 ≤ dv ∧ (5 ≤ nf → 20 ≤ dv)) := by
+  have key : ∀ b ∈ List.range 449, ∀ u ∈ [true, false],
+      ((siqs.interval_size b u).any fun mm => decide (32768 ≤ mm ∧ mm < 2 ^ 20)) = true ∧
+      ((siqs.nfactors b).any fun nf => decide (2 ≤ nf ∧ nf ≤ 17) &&
+        (siqs.a_tolerance_divisor b).any fun dv => decide (3 ≤ dv ∧ (5 ≤ nf → 20 ≤ dv))) = true := by
+    decide +kernel
+  obtain ⟨h1, h2⟩ := key bits (List.mem_range.mpr (by omega)) ud (by cases ud <;> simp)
+  constructor
+  · cases hm : siqs.interval_size bits ud with
+    | none => rw [hm] at h1; simp at h1
+    | some mm => rw [hm] at h1; simp at h1; exact ⟨mm, rfl, h1.1, h1.2⟩
+  · cases hn : siqs.nfactors bits with
+    | none => rw [hn] at h2; simp at h2
+    | some nf =>
+      rw [hn] at h2
+      simp only [Option.any_some, Bool.and_eq_true, decide_eq_true_eq] at h2
+      obtain ⟨⟨a1, a2⟩, h3⟩ := h2
+      cases hd : siqs.a_tolerance_divisor bits with
+      | none => rw [hd] at h3; simp at h3
+      | some dv => rw [hd] at h3; simp at h3; exact ⟨nf, rfl, a1, a2, dv, rfl, h3.1, fun h5 => by omega⟩
+
+open Ymq.SiqsSelect in
+/-- non-vacuity of `select_window_assert`, `select_a_sound`, `siqs_select_walk_total`: `n = 1050589`, 3 factors,
+`M = 32768`: the exhaustive branch returns `A = 7·11·23 = 1771` among the 3 values closest to the target 2000 -/
+example : (fbEx.map (·.p)).Nodup ∧ (∀ q ∈ fbEx.drop 1, q.p ≠ 2) ∧
+    ((selectFactors fbEx 1050589 3 32768).bind fun r =>
+      (selectA 1050589 r.1 3 3 (r.2.map (·.p)) 100).bind fun as =>
+        if 1771 ∈ as ∧ r.1 ≤ 4 * 1771 ∧ 1771 ≤ 4 * r.1 then some () else none).isSome = true := by
+  refine ⟨by decide, by decide, by decide +kernel⟩
 
 /-! ### MPQS -/
 
